@@ -56,6 +56,19 @@ RAGGED_TEXT = {"str", "union", "dna", "cigop", "bam"}
 RAGGED_NUM = {"li", "lf", "lb", "qual", "ciglen"}
 NUM = {"int": "iu", "optint": "iu", "float": "f", "bool": "b"}
 
+# further accepted input forms of a column (besides 'list', 'native', 'alt'): the kinds that have the form.  Columns
+# of the other kinds of a table are given as 'auto'.
+#   ndarray2d  the rows of a list-of-numbers column as one rectangular 2-D ndarray of the declared element type
+#              (needs rows of one width: make_rows(..., width=w))
+#   tuple      a tuple of tuples instead of a list of lists
+#   series     a pandas Series as user code makes it (object dtype: python strings / python lists; numeric dtype)
+FORM_KINDS = {"ndarray2d": {"li", "lf", "lb", "qual", "ciglen"},
+              "tuple": {"li", "lf", "lb"},
+              "series": {"int", "float", "bool", "optint", "str", "union", "sid", "li", "lf", "lb", "strand", "dna",
+                         "cigop", "bam"}}
+RECT_FORMS = {"ndarray2d"}
+FLAT = {k: [x for v in POOL[k] for x in v] for k in RAGGED_NUM}   # element pools of the rectangular rows
+
 INNER = [["a", "int"], ["s", "str"]]
 INNER2 = [["p", "sid"], ["q", {"nested": INNER}], ["r", "li"]]
 WIDE = [["k", "int"], ["name", "str"], ["sid", "sid"], ["f", "float"], ["b", "bool"], ["o", "optint"], ["li", "li"],
@@ -163,6 +176,9 @@ class Sch:
 
 _TYPES = {}
 _CLS = {}
+_FORM_MEMO = {}
+_LENIENT = [False]          # True in the input-form programs: see extract_col
+_CANONICAL = [False]        # True while a failing input-form case is re-run with the canonical input form (FormCol)
 
 
 def types():
@@ -201,15 +217,19 @@ def cls_of(sch):
     return _CLS[key]
 
 
-def value(field, idx):
+def value(field, idx, width=None):
+    """width: every list-of-numbers value has exactly `width` elements (rectangular columns)"""
     if field.sub is not None:
-        return [value(f, idx + j) for j, f in enumerate(field.sub.fields)]
+        return [value(f, idx + j, width) for j, f in enumerate(field.sub.fields)]
+    if width is not None and field.kind in RAGGED_NUM:
+        p = FLAT[field.kind]
+        return [p[(idx * 3 + j * 5) % len(p)] for j in range(width)]
     p = POOL[field.kind]
     return copy.deepcopy(p[idx % len(p)])
 
 
-def make_rows(sch, n, offset=0):
-    return [[value(f, offset + i + j) for j, f in enumerate(sch.fields)] for i in range(n)]
+def make_rows(sch, n, offset=0, width=None):
+    return [[value(f, offset + i + j, width) for j, f in enumerate(sch.fields)] for i in range(n)]
 
 
 # ------------------------------------------------------------------------------------------------------------------
@@ -225,6 +245,23 @@ def to_input(field, vals, form):
     k = field.kind
     if field.sub is not None:
         return build(field.sub, copy.deepcopy(list(vals)), form)
+    if form in FORM_KINDS:
+        # the further input forms (see FORM_KINDS); a column whose kind does not have the form is given as 'auto'
+        vals = copy.deepcopy(list(vals))
+        if _CANONICAL[0] or k not in FORM_KINDS[form]:
+            form = "auto"
+        elif form == "ndarray2d":
+            dt = {"li": np.int64, "lf": np.float64, "lb": bool, "ciglen": np.int64, "qual": np.uint8}[k]
+            return np.array(vals, dtype=dt).reshape(len(vals), len(vals[0]) if vals else 2)
+        elif len(vals) == 0 or (k in RAGGED_NUM and not any(len(v) for v in vals)):
+            form = "native"                                         # element-free tuples / object Series carry no type
+        elif form == "tuple":
+            return tuple(tuple(v) for v in vals)
+        else:
+            import pandas as pd
+            if k in NUM:
+                return pd.Series(np.array(vals, dtype={"int": np.int64, "optint": np.int64, "float": np.float64, "bool": bool}[k]))
+            return pd.Series(vals, dtype=object)
     if form == "auto":
         untyped = len(vals) == 0 or (k in RAGGED_NUM and not any(len(v) for v in vals))
         form = "native" if untyped else "list"
@@ -310,6 +347,10 @@ def extract_col(obj, field):
             raise Obs("container:nested", "nested column is %s, not a table" % type(obj).__name__)
         return extract(obj, field.sub)
     if isinstance(obj, np.ndarray):
+        if _LENIENT[0] and obj.ndim == 2 and k in RAGGED_NUM and obj.dtype.kind in "iufb":
+            # the programs on tables made from other input forms read an unconverted matrix as its rows (that it is not
+            # the declared container is one class of the construct section) and look at what the table then does
+            return obj.tolist()
         if obj.ndim != 1:
             raise Obs("container", "column %s is a %d-d ndarray" % (field.name, obj.ndim))
         if obj.dtype.kind not in "iufb":
@@ -488,17 +529,66 @@ def blame(sch, bad, got=None, want=None):
     return pick.kind
 
 
-class Ctx:
-    """one enumeration context: collector + case description for failures"""
+class FormCol:
+    """collector of the input-form contexts.  A failure that the same case (same rows, same program) also shows when
+    every column is handed over in the canonical form is the defect class found there and keeps its signature; a
+    failure that needs the input form gets the signature '<signature>:input-form=<form>'.  (The verdict always comes
+    from the list-of-rows model; the second run only names the class.)"""
 
-    def __init__(self, col, sch, base_rows, context=False):
-        self.col, self.sch0, self.base_rows, self.context = col, sch, base_rows, context
+    def __init__(self, col, form):
+        self._col, self._form, self._memo = col, form, _FORM_MEMO
+
+    def __getattr__(self, name):
+        return getattr(self._col, name)
+
+    def fail(self, signature, case, message):
+        key = (signature, self._form, case["schema"]["name"], len(case["rows"]),
+               json.dumps([o[0] for o in case["program"]]), case.get("final"))
+        if key not in self._memo:
+            scratch = Collector(PID, "quick", 0, "classification of an input-form failure")
+            _CANONICAL[0] = True
+            try:
+                run_program_case(scratch, case)
+            except Exception:
+                pass
+            finally:
+                _CANONICAL[0] = False
+            self._memo[key] = signature in scratch._fail_sigs
+        if not self._memo[key]:
+            signature += ":input-form=" + self._form
+        self._col.fail(signature, case, message)
+
+    def check(self, cond, signature, case, message=""):
+        if not cond:
+            self.fail(signature, case, message)
+        return cond
+
+
+class Ctx:
+    """one enumeration context: collector + case description for failures.  form / width: the input form in which
+    the base table (and the form-operands of the program) are handed to the library, see FORM_KINDS"""
+
+    def __init__(self, col, sch, base_rows, context=False, form=None, width=None):
+        self.sch0, self.base_rows, self.context, self.form, self.width = sch, base_rows, context, form, width
+        self.col = FormCol(col, form) if form and not isinstance(col, FormCol) else col
+
+    def base_form(self):
+        if self.form is None or (self.form in RECT_FORMS and not self.base_rows):
+            return "auto"                      # a 0 x w matrix holds no element: examined in the construct section
+        return self.form
 
     def case(self, program, final=None):
         c = {"section": "program", "schema": self.sch0.desc, "rows": self.base_rows, "program": program, "final": final}
         if self.context:
             c["context"] = True
+        if self.form:
+            c["form"], c["width"] = self.form, self.width
         return c
+
+    def descr(self, d):
+        if self.form:
+            d["form"] = [self.form, self.width]
+        return d
 
 
 def loose_eq(a, b):
@@ -555,11 +645,43 @@ def slice_list(n):
     return out
 
 
-def table_ops(sch, n, level, depth):
+def has_form(field, form):
+    if field.sub is not None:
+        return any(has_form(f, form) for f in field.sub.fields)
+    return field.kind in FORM_KINDS[form]
+
+
+def form_ops(sch, n, level, depth, form, width):
+    """the operations that take a column / a table in a further input form (only in the input-form contexts):
+    concatenation with tables handed over in that form (rectangular forms: of the same and of other widths),
+    replace and add_fields with a column in that form"""
+    rect = form in RECT_FORMS
+    w = width if rect else None
+    other = [width + 1] + ([width - 1] if width > 1 else []) if rect else []
+    ops = [["concat", "right", 1, form, w, "same"]]
+    if level == "mini":
+        return ops + [["concat", "left", 1, form, x, "other"] for x in other[:1]]
+    ops += [["concat", "left", 2, form, w, "same"]]
+    for x in other:
+        ops += [["concat", "right", 1, form, x, "other"], ["concat", "left", 2, form, x, "other"]]
+    if other:
+        ops.append(["concat", "both", 1, form, other[0], "other"])
+    fields = [f for f in sch.fields if has_form(f, form)]
+    for f in fields if level == "full" else fields[-1:]:
+        ops.append(["replace", f.name, form, w])
+        ops += [["replace", f.name, form, x] for x in other[:1]]
+    f = sch.fields[-1]
+    if has_form(f, form) and form != "series":      # add_fields documents lists of values / array-likes, not pandas objects
+        ops.append(["add", "w%d" % depth, f.desc[1], True, form, w])
+        ops += [["add", "w%d" % depth, f.desc[1], True, form, x] for x in other[:1]]
+    return ops
+
+
+def table_ops(sch, n, level, depth, form=None, width=None):
     """operations applicable to a table with schema sch and n rows. level: 'full' every parameter of the bounds,
     'rep' one representative per parameter class, 'mini' one per operation"""
     full, mini = level == "full", level == "mini"
-    ops = []
+    ops = form_ops(sch, n, level, depth, form, width) if form else []
     # boolean masks
     if n <= 3 and full:
         masks = [list(m) for m in itertools.product([False, True], repeat=n)]
@@ -642,13 +764,16 @@ def op_qual(op, node_n, operand_n=None):
     if op[0] == "concat":
         if op[1] == "self":
             return ":self"
+        formq = ":operand-%s%s" % (op[3], ":other-width" if op[5] == "other" else "") if len(op) > 3 else ""
         if node_n == 0:
-            return ":empty-self"
+            return ":empty-self" + formq
         if op[1] == "emptyslice" or op[2] == 0:
             return ":empty-operand"
-        return ""
-    if op[0] in ("replace", "add"):
-        return ":" + str(op[-1]) if op[0] == "replace" else (":typed" if op[3] else ":inferred")
+        return formq
+    if op[0] == "replace":
+        return ":" + str(op[2])
+    if op[0] == "add":
+        return (":typed" if op[3] else ":inferred") + (":" + op[4] if len(op) > 4 else "")
     if op[0] == "rt_tuples":
         return ":" + op[1]
     return ""
@@ -664,7 +789,7 @@ class Node:
 
 
 def fresh(ctx, node):
-    t = build(ctx.sch0, ctx.base_rows)
+    t = build(ctx.sch0, ctx.base_rows, ctx.base_form())
     if ctx.context:
         t.set_context("header", "##some header\n")     # what the file readers attach to every chunk
     for st in node.steps:
@@ -700,11 +825,12 @@ def make_step(node, op):
             want = list(rows)
             step = lambda t, info: np.concatenate([t, t[:0]])
         else:
-            urows = make_rows(sch, op[2], 3 + len(node.path))
+            uform, uwidth = (op[3], op[4]) if len(op) > 3 else ("auto", None)
+            urows = make_rows(sch, op[2], 3 + len(node.path), width=uwidth)
             want = {"right": rows + urows, "left": urows + rows, "both": urows + rows + urows}[op[1]]
 
             def step(t, info):
-                u = build(sch, urows, cls=type(t))
+                u = build(sch, urows, uform, cls=type(t))
                 info["operand"] = (u, urows)
                 return np.concatenate({"right": [t, u], "left": [u, t], "both": [u, t, u]}[op[1]])
     elif name == "sort":
@@ -718,7 +844,8 @@ def make_step(node, op):
         cols = {}
         for nm in names:
             j = sch.names().index(nm)
-            newvals = [value(sch.fields[j], 4 + i + len(node.path)) for i in range(n)]
+            newvals = [value(sch.fields[j], 4 + i + len(node.path), op[3] if name == "replace" and len(op) > 3 else None)
+                       for i in range(n)]
             for r, v in zip(want, newvals):
                 r[j] = v
             cols[nm] = (sch.fields[j], newvals)
@@ -733,11 +860,11 @@ def make_step(node, op):
     elif name == "add":
         new_sch = sch.extended(op[1], op[2])
         f = new_sch.fields[-1]
-        newvals = [value(f, 2 + i) for i in range(n)]
+        newvals = [value(f, 2 + i, op[5] if len(op) > 5 else None) for i in range(n)]
         want = [list(r) + [v] for r, v in zip(rows, newvals)]
 
         def step(t, info):
-            arg = to_input(f, newvals, "auto")
+            arg = to_input(f, newvals, op[4] if len(op) > 4 and n > 0 else "auto")
             info["lists"] = [(arg, copy.deepcopy(arg))] if isinstance(arg, list) else []
             return t.add_fields({op[1]: arg}, {op[1]: type_of(f)}) if op[3] else t.add_fields({op[1]: arg})
     elif name == "rt_tuples":
@@ -771,7 +898,7 @@ def apply_op(ctx, node, op):
     case = ctx.case(program)
     name = op[0]
     qual = op_qual(op, n)
-    col.case({"s": sch.name, "base": len(ctx.base_rows), "p": program, "ctx": ctx.context}, contract=name)
+    col.case(ctx.descr({"s": sch.name, "base": len(ctx.base_rows), "p": program, "ctx": ctx.context}), contract=name)
     step, want, new_sch, extra = make_step(node, op)
     ok, t = run_guarded(ctx, "prefix", case, lambda: fresh(ctx, node))
     if not ok:
@@ -827,7 +954,7 @@ def terminal(ctx, node, name, t=None):
     col, sch, rows = ctx.col, node.sch, node.rows
     n = len(rows)
     case = ctx.case(node.path, name)
-    col.case({"s": sch.name, "base": len(ctx.base_rows), "p": node.path, "obs": name, "ctx": ctx.context},
+    col.case(ctx.descr({"s": sch.name, "base": len(ctx.base_rows), "p": node.path, "obs": name, "ctx": ctx.context}),
              contract="observe:" + name)
     if t is None:
         ok, t = run_guarded(ctx, "prefix", case, lambda: fresh(ctx, node))
@@ -914,13 +1041,14 @@ def explore(ctx, node, depth, levels, seen):
     once per (schema, last operation, rows)"""
     col = ctx.col
     last = (node.path[-1][0] + op_qual(node.path[-1], 1)) if node.path else "fresh"
-    tkey = ("T", ctx.sch0.name, node.sch.name, len(node.sch.fields), last, json.dumps(node.rows))
+    tkey = ("T", ctx.sch0.name, node.sch.name, len(node.sch.fields), last, json.dumps(node.rows)) + \
+           ((ctx.form, ctx.width) if ctx.form else ())
     if depth <= 1 or tkey not in seen:
         seen.add(tkey)
         all_terminals(ctx, node)
     if depth >= len(levels) or col.out_of_time():
         return
-    for op in table_ops(node.sch, len(node.rows), levels[depth], depth):
+    for op in table_ops(node.sch, len(node.rows), levels[depth], depth, ctx.form, ctx.width):
         if col.out_of_time():
             return
         if len(node.rows) > 6 and op[0] == "concat":
@@ -930,27 +1058,35 @@ def explore(ctx, node, depth, levels, seen):
             continue
         key = (ctx.sch0.name, len(ctx.base_rows), tuple(o[0] + op_qual(o, 1) for o in child.path),
                json.dumps(child.rows), child.sch.name, len(child.sch.fields), tuple(levels[depth + 1:]))
+        if ctx.form:
+            key += (ctx.form, ctx.width)
         if key in seen:
             continue
         seen.add(key)
         explore(ctx, child, depth + 1, levels, seen)
 
 
-def run_programs(col, sch, ns, levels, seen=None, context=False):
+def run_programs(col, sch, ns, levels, seen=None, context=False, form=None, width=None):
+    """form / width: the base table is handed to the library in that input form (rectangular forms: list columns
+    with `width` elements per row) and the operations that take a table / column in that form are added"""
     seen = set() if seen is None else seen
-    for n in ns:
-        rows = make_rows(sch, n)
-        ctx = Ctx(col, sch, rows, context)
-        case = ctx.case([])
-        ok, t = run_guarded(ctx, "construct", case, lambda: build(sch, rows))
-        if not ok:
-            continue
-        ok, got = run_guarded(ctx, "construct:result", case, lambda: extract(t, sch))
-        if not ok or not compare(ctx, "construct", "", sch, got, rows, case):
-            continue
-        explore(ctx, Node([], rows, sch, []), 0, levels, seen)
-        if col.out_of_time():
-            return
+    _LENIENT[0] = bool(form)
+    try:
+        for n in ns:
+            rows = make_rows(sch, n, width=width if form in RECT_FORMS else None)
+            ctx = Ctx(col, sch, rows, context, form, width)
+            case = ctx.case([])
+            ok, t = run_guarded(ctx, "construct", case, lambda: build(sch, rows, ctx.base_form()))
+            if not ok:
+                continue
+            ok, got = run_guarded(ctx, "construct:result", case, lambda: extract(t, sch))
+            if not ok or not compare(ctx, "construct", "", sch, got, rows, case):
+                continue
+            explore(ctx, Node([], rows, sch, []), 0, levels, seen)
+            if col.out_of_time():
+                return
+    finally:
+        _LENIENT[0] = False
 
 
 def sample_programs(col, sch, n, length, count):
@@ -1040,25 +1176,50 @@ def construct_case(col, case):
     untyped = form in ("list", "alt") and any(no_elements([r[j] for r in rows]) for j, f in enumerate(sch.fields)
                                                if f.kind in NUM or f.kind in RAGGED_NUM)
     zero = ":untyped-empty-lists" if untyped or (form == "list" and n == 0) else (":empty()" if form == "empty()" else "")
-    col.case({"k": "construct", "s": sch.name, "n": n, "form": form, "kw": case.get("keywords", False)}, contract="construct")
+    fsuffix = ""
+    if form in FORM_KINDS:
+        # a typed matrix without elements (0 rows or 0 columns) is its own class
+        fsuffix = ":" + form
+        def element_free(f, vals):
+            if f.sub is not None:
+                return any(element_free(g, [v[i] for v in vals]) for i, g in enumerate(f.sub.fields))
+            return f.kind in FORM_KINDS[form] and no_elements(vals)
+        if form in RECT_FORMS and any(element_free(f, [r[j] for r in rows]) for j, f in enumerate(sch.fields)):
+            zero = ":element-free"
+    descr = {"k": "construct", "s": sch.name, "n": n, "form": form, "kw": case.get("keywords", False)}
+    if form in FORM_KINDS:
+        descr["w"] = case.get("width")
+    col.case(descr, contract="construct")
     if form == "empty()":
         ok, t = run_guarded(ctx, "construct:empty()", case, lambda: cls_of(sch).empty())
     else:
         cols = [to_input(f, [r[j] for r in rows], form) for j, f in enumerate(sch.fields)]
         snapshot = [copy.deepcopy(c) if isinstance(c, list) and form == "list" else None for c in cols]
         cls = cls_of(sch)
-        ok, t = run_guarded(ctx, "construct" + zero, case,
+        ok, t = run_guarded(ctx, "construct" + zero + fsuffix, case,
                             (lambda: cls(**dict(zip(sch.names(), cols)))) if case.get("keywords") else (lambda: cls(*cols)))
     if not ok:
         return
+    declared = True
     for f in sch.fields:
         m = check_container(getattr(t, f.name), f)
         if m:
             what = "dtype-not-declared" if m.startswith("dtype:") else "container-not-declared"
-            col.fail("construct:%s:%s%s" % (f.kind if not zero else "any", what, zero), case, m)
-    ok, got = run_guarded(ctx, "construct:result" + zero, case, lambda: extract(t, sch))
+            if fsuffix:
+                # one class per kind of the innermost column concerned that is not converted (with or without elements);
+                # one class for the element type lost by a matrix without elements
+                kind = m.split(" ", 1)[0].split(":")[-1]
+                sig = "construct:%s:%s%s" % (kind, what, fsuffix) if not zero or what == "container-not-declared" else \
+                    "construct:any:%s%s%s" % (what, zero, fsuffix)
+                col.fail(sig, case, "column %s of %s: %s" % (f.name, sch.name, m))
+                declared = declared and what != "container-not-declared"
+            else:
+                col.fail("construct:%s:%s%s" % (f.kind if not zero else "any", what, zero), case, m)
+    if not declared:
+        return                  # one class: the column is not converted; what follows from that is not a new class
+    ok, got = run_guarded(ctx, "construct:result" + zero + fsuffix, case, lambda: extract(t, sch))
     if ok:
-        compare(ctx, "construct", zero + (":" + form if form in ("native", "alt") else ""), sch, got, rows, case)
+        compare(ctx, "construct", zero + (":" + form if form in ("native", "alt") or fsuffix else ""), sch, got, rows, case)
     if form != "empty()":
         for c, s in zip(cols, snapshot):
             if s is not None:
@@ -1071,14 +1232,14 @@ def construct_case(col, case):
         if ok:
             for order in ("left", "right"):
                 col.case({"k": "construct-concat", "s": sch.name, "form": form, "order": order}, contract="concat")
-                ok, r = run_guarded(ctx, "concat%s" % zero, case, lambda: np.concatenate([t, u] if order == "left" else [u, t]))
+                ok, r = run_guarded(ctx, "concat%s%s" % (zero, fsuffix), case, lambda: np.concatenate([t, u] if order == "left" else [u, t]))
                 if ok:
-                    ok, got = run_guarded(ctx, "concat:result%s" % zero, case, lambda: extract(r, sch))
+                    ok, got = run_guarded(ctx, "concat:result%s%s" % (zero, fsuffix), case, lambda: extract(r, sch))
                     if ok:
                         wantc = (rows + urows) if order == "left" else (urows + rows)
                         bad, how = diff_fields(sch, got, wantc)
                         if bad:
-                            col.fail("concat:rows-changed%s" % zero, case,
+                            col.fail("concat:rows-changed%s%s" % (zero, fsuffix), case,
                                      "columns %s: got %r expected %r" % ([f.name for f in bad], got, wantc))
 
 
@@ -1197,6 +1358,7 @@ def run(tier="quick", seed=0):
                     "every sequence of table operations up to the stated depth, each followed by all observation channels; "
                     "a node is expanded once per (schema, operation kinds+parameter classes on the path, resulting rows); "
                     "distinct = distinct (schema, base size, program, channel); non-trivial = every case")
+    _FORM_MEMO.clear()
     col.bounds = {
         "rows": "base tables 0..3 rows, operands of concatenate 0..2 rows; concatenate is cut above 6 rows",
         "parameter levels": "full = every mask (2^n), every slice result incl. negative / strided / out-of-range bounds, "
@@ -1245,6 +1407,16 @@ def run(tier="quick", seed=0):
                     for op in ("construct", "replace", "add"):
                         c = {"section": "unequal", "schema": sch.desc, "n": n, "short": short, "delta": delta, "op": op}
                         col.guarded(lambda: unequal_case(col, c), "unequal:crash", c)
+    # 2b construction from the further input forms (every schema that has a column of a kind with that form)
+    for sch in schemas + datatype_schemas():
+        for form in FORM_KINDS:
+            if not any(has_form(f, form) for f in sch.fields):
+                continue
+            for n in range(4) if form in RECT_FORMS else range(1, 4):
+                for w in (0, 1, 2) if form in RECT_FORMS else (None,):
+                    c = {"section": "construct", "schema": sch.desc, "rows": make_rows(sch, n, width=w), "form": form,
+                         "keywords": False, "width": w}
+                    col.guarded(lambda: construct_case(col, c), "construct:crash", c)
     # 3 programs
     import os
     import time
@@ -1287,11 +1459,60 @@ def run(tier="quick", seed=0):
         for sch in kind_schemas():
             if sch.name in ("K_int", "K_str", "K_sid", "K_li", "K_strand", "K_nested"):
                 section(sch.name + " d3", lambda: run_programs(col, sch, [3], ("rep", "mini", "rep")))
+    # programs on tables handed over in the further input forms; with the operations that take such tables / columns
+    by_name = {sch.name: sch for sch in kind_schemas() + other_schemas() + datatype_schemas()}
+    if quick:
+        fplan = [("ndarray2d", ["K_li"], [3, 1], [2], ("rep",)),
+                 ("ndarray2d", ["K_lf", "K_lb"], [3], [2], ("rep",)),
+                 ("ndarray2d", ["K_li"], [2], [1], ("rep", "mini")),
+                 ("ndarray2d", ["Bed12", "GfaPath", "Nested2"], [3], [2], ("mini",)),
+                 ("tuple", ["K_li", "K_lb"], [3], [None], ("rep",)),
+                 ("series", ["K_int", "K_str", "K_li", "K_strand"], [3], [None], ("rep",))]
+    else:
+        fplan = [("ndarray2d", ["K_li"], [0, 1, 2, 3], [1, 2], ("rep", "mini")),
+                 ("ndarray2d", ["K_lf", "K_lb"], [1, 3], [2], ("rep", "mini")),
+                 ("ndarray2d", ["K_lf", "K_lb"], [0, 2], [1], ("rep",)),
+                 ("ndarray2d", ["Bed12", "GfaPath", "Wide", "Nested2"], [1, 3], [2], ("rep",)),
+                 ("ndarray2d", ["GfaPath"], [3], [1], ("rep", "mini")),
+                 ("tuple", ["K_li", "K_lf", "K_lb"], [1, 2, 3], [None], ("rep",)),
+                 ("tuple", ["K_li"], [3], [None], ("rep", "mini")),
+                 ("series", ["K_" + k for k in ("int", "float", "bool", "optint", "str", "union", "sid", "li", "lf", "lb",
+                                                "strand", "dna", "cigop", "bam", "nested")] + ["Wide"], [1, 3], [None], ("rep",)),
+                 ("series", ["K_int", "K_str", "K_li"], [3], [None], ("rep", "mini"))]
+    for form, names, ns, widths, levels in fplan:
+        for nm in names:
+            for w in widths:
+                section("%s %s w=%r %r %r" % (nm, form, w, ns, levels),
+                        lambda: run_programs(col, by_name[nm], ns, levels, form=form, width=w))
     for sch in [Sch("K_str", [["k", "int"], ["v", "str"]], None, True), Sch("Interval", DATATYPES["Interval"], datatype="Interval")]:
         section(sch.name + " with context", lambda: run_programs(col, sch, [0, 1, 3], ("rep",), context=True))
     for sch in kind_schemas() + other_schemas():
         section(sch.name + " sampled", lambda: sample_programs(col, sch, 3, 3, 15 if quick else 200))
     return col.result()
+
+
+def run_program_case(col, case):
+    """one recorded case of the programs section (replay; canonical re-run of FormCol)"""
+    sch = Sch.from_desc(case["schema"])
+    rows = case["rows"]
+    ctx = Ctx(col, sch, rows, case.get("context", False), None if _CANONICAL[0] else case.get("form"), case.get("width"))
+    lenient = _LENIENT[0]
+    _LENIENT[0] = bool(case.get("form"))
+    try:
+        ok, t = run_guarded(ctx, "construct", ctx.case([]), lambda: build(sch, rows, ctx.base_form()))
+        if ok:
+            ok, got = run_guarded(ctx, "construct:result", ctx.case([]), lambda: extract(t, sch))
+            if ok and compare(ctx, "construct", "", sch, got, rows, ctx.case([])):
+                node = Node([], rows, sch, [])
+                for op in case["program"]:
+                    node = apply_op(ctx, node, op)
+                    if node is None:
+                        break
+                if node is not None:
+                    for name in ([case["final"]] if case.get("final") else TERMINALS):
+                        terminal(ctx, node, name)
+    finally:
+        _LENIENT[0] = lenient
 
 
 def replay(case):
@@ -1306,21 +1527,7 @@ def replay(case):
     elif sec == "unequal":
         unequal_case(col, case)
     else:
-        sch = Sch.from_desc(case["schema"])
-        rows = case["rows"]
-        ctx = Ctx(col, sch, rows, case.get("context", False))
-        ok, t = run_guarded(ctx, "construct", ctx.case([]), lambda: build(sch, rows))
-        if ok:
-            ok, got = run_guarded(ctx, "construct:result", ctx.case([]), lambda: extract(t, sch))
-            if ok and compare(ctx, "construct", "", sch, got, rows, ctx.case([])):
-                node = Node([], rows, sch, [])
-                for op in case["program"]:
-                    node = apply_op(ctx, node, op)
-                    if node is None:
-                        break
-                if node is not None:
-                    for name in ([case["final"]] if case.get("final") else TERMINALS):
-                        terminal(ctx, node, name)
+        run_program_case(col, case)
     if col.failures:
         return False, "; ".join(f["signature"] + ": " + f["message"] for f in col.failures)
     return True, "ok"
